@@ -34,6 +34,15 @@ Qed.
 Lemma run_linv : forall cfg ops st, wf_cfg cfg -> linv cfg st -> linv cfg (run cfg st ops).
 Proof. intros cfg ops st W. apply run_ind. intros; apply next_linv; assumption. Qed.
 
+(* reachable states: any history from an initial state (no locks, no accounts; any validators, multipliers, supply) *)
+Definition reachable (cfg : config) (st : state) : Prop :=
+  exists t0 vals mults sup off bnd ops, 0 < t0 /\ st = run cfg (init_state t0 vals mults sup off bnd) ops.
+
+Lemma reachable_linv : forall cfg st, wf_cfg cfg -> reachable cfg st -> linv cfg st.
+Proof.
+  intros cfg st W [t0 [vals [mults [sup [off [bnd [ops [H ->]]]]]]]]. apply run_linv; [assumption|]. apply init_linv. assumption.
+Qed.
+
 (* ---- supply ---- *)
 Lemma next_tot : forall cfg st o, tot (next cfg st o) = tot st.
 Proof.
